@@ -83,10 +83,10 @@ theorem unknown_rsp_never_answered (s : State) (p : Pdu) (h7 : opcodeOf p.body =
       LL_REJECT_EXT_IND]
     repeat' split
     all_goals simp
-  · have e2 : handleEncryptionPdus s LL_UNKNOWN_RSP p.body.length p.body = none := by
-      simp [handleEncryptionPdus, LL_UNKNOWN_RSP, LL_ENC_REQ, LL_START_ENC_RSP, LL_PAUSE_ENC_REQ, LL_PAUSE_ENC_RSP]
-    have e3 : handlePhyRequest s p LL_UNKNOWN_RSP p.body.length = none := by
-      simp [handlePhyRequest, LL_UNKNOWN_RSP, LL_PHY_REQ, LL_PHY_UPDATE_IND]
+  · have e2 : handleEncryptionPdus s 7 p.body.length p.body = none := by
+      simp [handleEncryptionPdus, LL_ENC_REQ, LL_START_ENC_RSP, LL_PAUSE_ENC_REQ, LL_PAUSE_ENC_RSP]
+    have e3 : handlePhyRequest s p 7 p.body.length = none := by
+      simp [handlePhyRequest, LL_PHY_REQ, LL_PHY_UPDATE_IND]
     simp [handleControl, handleControlAux, h7, hn, ctlOther, e2, e3, LL_UNKNOWN_RSP,
       LL_CONNECTION_UPDATE_IND, LL_TERMINATE_IND, LL_VERSION_IND, LL_CHANNEL_MAP_REQ, LL_PING_REQ, LL_FEATURE_REQ,
       LL_REJECT_IND, LL_REJECT_EXT_IND, LL_CONNECTION_PARAM_REQ]
@@ -141,19 +141,15 @@ theorem known_request_response (s : State) :
     · simp [handleControl, handleControlAux, opcodeOf, rd8, ctrl, hv, LL_VERSION_IND, LL_CONNECTION_UPDATE_IND,
         LL_TERMINATE_IND]
     · intro hs
-      have : (push { s with procTimeout := 0, versionReceived := true,
-          usedFeatures := if (rd8 [LL_VERSION_IND, v, c0, c1, s0, s1] 1).toNat ≤ 6 then s.usedFeatures &&& 0xFFFD
-            else s.usedFeatures } (.version (([LL_VERSION_IND, v, c0, c1, s0, s1].drop 1).take 5))).stopped = false := by
-        unfold push; split <;> simpa using hs
-      unfold ctlVersion commit
-      rw [if_neg (by simp [this])]
-      unfold push; split <;> simp
+      unfold ctlVersion commit push
+      repeat' split
+      all_goals simp_all
     · unfold ctlVersion commit push
       repeat' split
-      all_goals simp
+      all_goals simp_all
   · intro a b hp
-    have e2 : handleEncryptionPdus s LL_PHY_REQ 3 [LL_PHY_REQ, a, b] = none := by
-      simp [handleEncryptionPdus, LL_PHY_REQ, LL_ENC_REQ, LL_START_ENC_RSP, LL_PAUSE_ENC_REQ, LL_PAUSE_ENC_RSP]
+    have e2 : handleEncryptionPdus s 22 3 [22, a, b] = none := by
+      simp [handleEncryptionPdus, LL_ENC_REQ, LL_START_ENC_RSP, LL_PAUSE_ENC_REQ, LL_PAUSE_ENC_RSP]
     simp [handleControl, handleControlAux, opcodeOf, rd8, ctrl, ctlOther, e2, handlePhyRequest, hp, LL_PHY_REQ,
       LL_CONNECTION_UPDATE_IND, LL_TERMINATE_IND, LL_VERSION_IND, LL_CHANNEL_MAP_REQ, LL_PING_REQ, LL_FEATURE_REQ,
       LL_UNKNOWN_RSP, LL_REJECT_IND, LL_REJECT_EXT_IND, LL_CONNECTION_PARAM_REQ]
@@ -245,6 +241,7 @@ theorem procedure_timeout_countdown (s : State) (h : s.procTimeout ≠ 0) (ht : 
   all_goals (repeat' split)
   all_goals simp
 
+set_option maxRecDepth 20000 in
 /-- concrete run (4 s connection interval): `remote_versions_request()`, LL_VERSION_IND queued in
     the next event (timer := 40 s), no answer: the tenth event after that reports closed(0x22) -/
 example : ((run (init ⟨false, false⟩) ([.connect 3200 3200, .ev [], .apiVersion] ++ List.replicate 11 (.ev []))).2.map (·.cbs)).drop 3
@@ -254,6 +251,7 @@ example : ((run (init ⟨false, false⟩) ([.connect 3200 3200, .ev [], .apiVers
 def phy_request_times_out_full : Prop :=
   ∀ (c : Cfg), (run (init c) [.connect 3200 3200, .ev [], .apiPhy 2 2, .ev []]).1.procTimeout ≠ 0
 
+set_option maxRecDepth 20000 in
 /-- FALSE: `transmit_pending_control_pdus` sends LL_PHY_REQ without starting the procedure timer;
     twenty silent events (80 s) later the connection is still up -/
 theorem phy_request_no_timeout_witness : ¬ phy_request_times_out_full
